@@ -366,7 +366,7 @@ pub fn dump(l: &Log) -> Result<Vec<u64>, u64> {
         let f = l.store.first_index().unwrap();
         let la = l.store.last_index().unwrap();
         let bt = l.store.term(f - 1);
-        let se = if la < f { vec![] } else { l.store.entries(f, la + 1, None, ctx()).unwrap_or_default() };
+        let se = l.store.entries(f, la + 1, None, ctx()).unwrap_or_default(); // Ok([]) on an empty store since /repo 9c2e6d6
         let lf = l.first_index();
         let le = l.slice(lf, l.last_index() + 1, None, ctx());
         o.extend_from_slice(&[l.committed, l.persisted, l.applied, l.max_apply_unpersisted_log_limit,
